@@ -118,11 +118,13 @@ Qed.
 Definition prim2_buildsb (p : Prim2 QOps) : bool :=
   match p with
   | PArcSpiral a _ s e _ => negb (qis0 a) && negb (Qeq_bool s e)
+  | PThreeArcCam d b n f => qleb (b + d + n)%Q (q2x f)
   | _ => true
   end.
 Lemma prim2_buildsb_sound p : prim2_buildsb p = true -> prim2_builds (map_prim2 (A := QOps) (B := ROps) Q2R p).
 Proof.
   destruct p; cbn [prim2_buildsb map_prim2 prim2_builds]; intros H; try exact I.
+  { apply qleb_sound in H. rewrite q2x_sound, !Q2R_plus in H. lra. }
   apply andb_true_iff in H. destruct H as [Ha Hs]. apply negb_true_iff in Ha, Hs. split.
   - apply Q2R_nonzero, Ha.
   - intros E. apply eqR_Qeq in E. apply Qeq_bool_iff in E. congruence.
